@@ -47,7 +47,14 @@ class RotatedSweepDecoder3D(BaseDecoder):
     ) -> np.ndarray:
         """Get initial cellular automaton state from syndrome."""
         signs = syndrome.copy()
-        signs[self.code.z_indices] = 0
+
+        # Blank the vertex stabilizers (not `z_indices`: on the defect lines of
+        # an odd-sized RotatedToric3DCode a face carries Z letters too).
+        is_vertex = np.array([
+            self.code.stabilizer_type(location) == 'vertex'
+            for location in self.code.stabilizer_coordinates
+        ])
+        signs[is_vertex] = 0
 
         return signs
 
@@ -92,6 +99,18 @@ class RotatedSweepDecoder3D(BaseDecoder):
 
         return self.code.to_bsf(correction)
 
+    def _wrap(self, location):
+        """Bring a location back onto the lattice across the periodic seams.
+
+        Only :class:`RotatedToric3DCode` is periodic (in x and y); locations
+        of the planar code are returned unchanged.
+        """
+        if self.code.id != 'RotatedToric3DCode':
+            return location
+        Lx, Ly, _ = self.code.size
+        x, y, z = location
+        return ((x - 1) % (2*Lx) + 1, (y - 1) % (2*Ly) + 1, z)
+
     def get_sweep_faces(self, vertex, sweep_direction):
         """Get the coordinates of neighboring faces in sweep direction."""
         x, y, z = vertex
@@ -114,7 +133,7 @@ class RotatedSweepDecoder3D(BaseDecoder):
             y_face = (x - 1, y + 1, z + 1*s_z)
 
         z_face = (x + 2*s_x, y + 2*s_y, z)
-        return x_face, y_face, z_face
+        return tuple(self._wrap(face) for face in (x_face, y_face, z_face))
 
     def get_sweep_edges(self, vertex, sweep_direction):
         """Get coordinates of neighbouring edges in sweep direction."""
@@ -133,7 +152,7 @@ class RotatedSweepDecoder3D(BaseDecoder):
 
         z_edge = (x, y, z + 1*s_z)
 
-        return x_edge, y_edge, z_edge
+        return tuple(self._wrap(edge) for edge in (x_edge, y_edge, z_edge))
 
     def get_default_direction(self):
         """The default direction when all faces are excited."""
@@ -254,6 +273,7 @@ class RotatedSweepDecoder3D(BaseDecoder):
             ]
 
         # Only keep faces that are actually on the cut lattice.
+        faces = [self._wrap(face) for face in faces]
         faces = [face for face in faces
                  if self.code.is_stabilizer(face, 'face')]
 
